@@ -27,6 +27,11 @@ CHILD_ENV = {"PYTHONHASHSEED": "0", "PYTHONDONTWRITEBYTECODE": "1", "PYTHONIOENC
              "LC_ALL": "C.UTF-8", "PATH": "/usr/bin:/bin", "HOME": "/nonexistent"}
 
 
+RH_SCORES = ["0.0", "5.0", "7.5", "9.8", "10.0", "10", "x", "", " 7.5", "7.5 ", "7.50", "1e1", "+7.5", "-0.0", ".5", "5.",
+             "7_5", "1_0.0", "nan", "inf", "Infinity", "0x10", "7,5", "7.5\t", "\uff17.\uff15", "1E1", "00007.5", "7.5e0",
+             "1" * 400, "7.5/7.5"]
+
+
 def is_ascii(s):
     try:
         s.encode("ascii")
@@ -68,8 +73,10 @@ class Generator(object):
                     ops.append({"op": "observe", "cls": cls, "how": "ctor", "s": s})
                     classes.add(vclass.split(".")[0])
                 elif r < 75:
-                    v = vectors.valid_vector(rng, version)
-                    score = rng.choice(["0.0", "5.0", "7.5", "9.8", "10.0", "10", "x", "", " 7.5", "7.50", "1e1"])
+                    # Red Hat notation: any score spelling x any vector part (valid, one edit away,
+                    # other version, garbage) -- the error path matters as much as the happy path
+                    vclass, v = vectors.any_vector(rng, version, p_valid=0.6)
+                    score = rng.choice(RH_SCORES)
                     ops.append({"op": "observe", "cls": cls, "how": "rh", "s": score + "/" + v})
                     classes.add("rh")
                 else:
@@ -110,6 +117,8 @@ def item_class(item):
     if item["k"] == "api":
         if item["ops"] and item["ops"][0]["op"] == "import_all":
             return "import"
+        if any(op.get("how") == "rh" and "_" in op.get("s", "").split("/", 1)[0] for op in item["ops"]):
+            return "rh-underscore-score"
         return "nonascii" if any(not is_ascii(op.get("s", "")) for op in item["ops"]) else "ascii"
     exotic = any(not is_plain(a[1]) for a in item.get("script", []))
     if item["k"] == "builder":
@@ -201,7 +210,10 @@ def compare(interp, item, got, ref):
             what = "%s.%s" % (op.get("cls", "parse_cvss_from_text"), "from_rh_vector" if op.get("how") == "rh" else op["op"])
             from .engine_state import clip, short_op
 
-            vio.append(violation(PROP, interp, "api:%s:%s:%s" % (what, field, "nonascii" if not is_ascii(op.get("s", "")) else "ascii"),
+            opcls = "nonascii" if not is_ascii(op.get("s", "")) else "ascii"
+            if op.get("how") == "rh" and "_" in op.get("s", "").split("/", 1)[0]:
+                opcls = "rh-underscore-score"
+            vio.append(violation(PROP, interp, "api:%s:%s:%s" % (what, field, opcls),
                                  "python %s: %s differs from the reference interpreter in %s: got %s, reference %s" %
                                  (interp, short_op(op), field, clip(g, field, r), clip(r, field, g))))
         return vio
